@@ -1533,10 +1533,19 @@ func (d *DFA) checkEOIMatch(state *State) bool {
 		return false
 	}
 
+	if state.eoiMatch != 0 {
+		return state.eoiMatch == 2
+	}
+
 	// Create a temporary builder for EOI resolution
 	// Use NewBuilderWithWordBoundary to avoid O(states) scan per call (Issue #105)
 	builder := NewBuilderWithWordBoundary(d.nfa, d.config, d.hasWordBoundary)
-	return builder.CheckEOIMatch(state.NFAStates(), state.IsFromWord())
+	matched := builder.CheckEOIMatch(state.NFAStates(), state.IsFromWord())
+	state.eoiMatch = 1
+	if matched {
+		state.eoiMatch = 2
+	}
+	return matched
 }
 
 // checkWordBoundaryMatch checks if resolving word boundary assertions with
@@ -1560,10 +1569,18 @@ func (d *DFA) checkWordBoundaryMatch(state *State, nextByte byte) bool {
 		return false
 	}
 
-	// Use NewBuilderWithWordBoundary to avoid O(states) scan per call (Issue #105)
-	builder := NewBuilderWithWordBoundary(d.nfa, d.config, d.hasWordBoundary)
 	isFromWord := state.IsFromWord()
 	isNextWord := isWordByte(nextByte)
+	memo := 0
+	if isNextWord {
+		memo = 1
+	}
+	if state.wbMatch[memo] != 0 {
+		return state.wbMatch[memo] == 2
+	}
+
+	// Use NewBuilderWithWordBoundary to avoid O(states) scan per call (Issue #105)
+	builder := NewBuilderWithWordBoundary(d.nfa, d.config, d.hasWordBoundary)
 	wordBoundarySatisfied := isFromWord != isNextWord
 
 	// Resolve word boundary assertions
@@ -1573,7 +1590,12 @@ func (d *DFA) checkWordBoundaryMatch(state *State, nextByte byte) bool {
 	// Check if resolving word boundaries added any match states
 	// If resolved == original states (no word boundaries crossed), this returns false
 	// because the original states weren't matches (checked above)
-	return builder.containsMatchState(resolved)
+	matched := builder.containsMatchState(resolved)
+	state.wbMatch[memo] = 1
+	if matched {
+		state.wbMatch[memo] = 2
+	}
+	return matched
 }
 
 // getStartState returns the appropriate start state for the given position.
